@@ -230,7 +230,7 @@ def newer(target, sources):
     return any(os.path.exists(s) and os.path.getmtime(s) > t for s in sources)
 
 
-def build_oracle(pid, model, main):
+def build_oracle(pid, model, main, includes=()):
     """model: basename of the extracted module written by Extract/<pid>.v into coq/ (e.g. c29_model);
     main: file under ocaml/ holding the comparison code."""
     odir = os.path.join(BUILD, "ocaml", pid)
@@ -239,7 +239,7 @@ def build_oracle(pid, model, main):
     mli = os.path.join(COQ, model + ".mli")
     exe = os.path.join(BUILD, "bin", pid.lower() + "_oracle")
     os.makedirs(os.path.dirname(exe), exist_ok=True)
-    srcs = [ml, mli, os.path.join(OCAML_SRC, "conv.ml"), os.path.join(OCAML_SRC, main)]
+    srcs = [ml, mli, os.path.join(OCAML_SRC, "conv.ml"), os.path.join(OCAML_SRC, main)] + [os.path.join(OCAML_SRC, i) for i in includes]
     if not os.path.exists(ml):
         return None, "extracted module %s.ml missing (extraction did not run)" % model
     if not newer(exe, srcs):
@@ -252,6 +252,9 @@ def build_oracle(pid, model, main):
         f.write("open %s\n" % modname)
         f.write(open(os.path.join(OCAML_SRC, "conv.ml")).read())
         f.write("\n")
+        for inc in includes:
+            f.write(open(os.path.join(OCAML_SRC, inc)).read())
+            f.write("\n")
         f.write(open(os.path.join(OCAML_SRC, main)).read())
     files = ([model + ".mli"] if os.path.exists(mli) else []) + [model + ".ml", "main.ml"]
     rc, out, _ = run(["ocamlfind", "ocamlopt", "-O2", "-w", "-a", "-package", "str", "-linkpkg"] + files + ["-o", exe],
